@@ -348,9 +348,9 @@ HARNESS(h_ends_cstr) { BEGIN(); fsv v; mk_fs(&v, 0); cstr c; mk_cstr(&c); int r_
 HARNESS(h_ends_ch) { BEGIN(); fsv v; mk_fs(&v, 0); uint8_t ch = nxb(); int r_ = vw_ends_ch(v.o, ch); OUT(r_);
   C11((r_ != 0) == (v.len > 0 && v.b[v.len - 1] == ch), "ends_with(char)"); unchanged(&v); END(); }
 HARNESS(h_contains_fs) { BEGIN(); fsv v; mk_fs(&v, 0); fsv a; mk_fs(&a, 1); int r_ = vw_contains_fs(v.o, a.o); OUT(r_);
-  { ref_t r; ref_of(&r, &v); C11((r_ != 0) == (ref_find(&r, a.b, a.len, 0) != RNPOS), "contains(FixedString)"); } unchanged(&v); END(); }
+  { ref_t r; ref_of(&r, &v); C11((r_ != 0) == (a.len != 0 && ref_find(&r, a.b, a.len, 0) != RNPOS), "contains(FixedString)"); } unchanged(&v); END(); }
 HARNESS(h_contains_cstr) { BEGIN(); fsv v; mk_fs(&v, 0); cstr c; mk_cstr(&c); int r_ = vw_contains_cstr(v.o, c.p); OUT(r_);
-  { ref_t r; ref_of(&r, &v); C11((r_ != 0) == (ref_find(&r, c.p, c.len, 0) != RNPOS), "contains(const char*)"); } unchanged(&v); END(); }
+  { ref_t r; ref_of(&r, &v); C11((r_ != 0) == (c.len != 0 && ref_find(&r, c.p, c.len, 0) != RNPOS), "contains(const char*)"); } unchanged(&v); END(); }
 HARNESS(h_contains_ch) { BEGIN(); fsv v; mk_fs(&v, 0); uint8_t ch = nxb(); ASSUME(ch != 0); int r_ = vw_contains_ch(v.o, ch); OUT(r_);
   { ref_t r; ref_of(&r, &v); C11((r_ != 0) == (ref_find(&r, &ch, 1, 0) != RNPOS), "contains(char)"); } unchanged(&v); END(); }
 
@@ -383,21 +383,21 @@ HARNESS(h_replace_cstr_cnt) { BEGIN(); fsv v; mk_fs(&v, 0); cstr c; mk_cstr(&c);
 #endif
   END(); }
 HARNESS(h_replace_it_it) { BEGIN(); fsv v; mk_fs(&v, 0); fsv a; mk_fs(&a, 0); size_t x = nx(), y = nx(), x2 = nx(), y2 = nx();
-  ASSUME(x <= y && x2 <= y2); DOMAIN(x < v.len && x2 < a.len);
+  ASSUME(x <= y && x2 <= y2); DOMAIN(x < v.len && x2 < a.len && x < y && x2 < y2);
   vw_replace_it_it(v.o, x, y, a.o, x2, y2); inv(&v, 1);
 #ifdef P11
   REPL_TAIL(x, (y < v.len ? y : v.len) - x, a.b + x2, (y2 < a.len ? y2 : a.len) - x2)
 #endif
   END(); }
 HARNESS(h_replace_it_str_cnt) { BEGIN(); fsv v; mk_fs(&v, 0); cstr c; mk_buf(&c, 1); size_t x = nx(), y = nx();
-  ASSUME(x <= y); DOMAIN(x < v.len);
+  ASSUME(x <= y); DOMAIN(x < v.len && x < y && c.len > 0);
   vw_replace_it_str_cnt(v.o, x, y, c.p, c.len); inv(&v, 1);
 #ifdef P11
   REPL_TAIL(x, (y < v.len ? y : v.len) - x, c.p, c.len)
 #endif
   END(); }
 HARNESS(h_replace_it_cstr) { BEGIN(); fsv v; mk_fs(&v, 0); cstr c; mk_cstr(&c); size_t x = nx(), y = nx();
-  ASSUME(x <= y); DOMAIN(x < v.len);
+  ASSUME(x <= y); DOMAIN(x < v.len && x < y && c.len > 0);
   vw_replace_it_cstr(v.o, x, y, c.p); inv(&v, 1);
 #ifdef P11
   REPL_TAIL(x, (y < v.len ? y : v.len) - x, c.p, c.len)
@@ -411,14 +411,14 @@ HARNESS(h_replace_cnt_ch) { BEGIN(); fsv v; mk_fs(&v, 0); size_t p = nx(), n = n
 #endif
   END(); }
 HARNESS(h_replace_it_cnt_ch) { BEGIN(); fsv v; mk_fs(&v, 0); size_t x = nx(), y = nx(), n2 = nx(); uint8_t ch = nxb(); ASSUME(ch != 0);
-  ASSUME(x <= y); DOMAIN(x < v.len && n2 <= MAXSRC);
+  ASSUME(x <= y); DOMAIN(x < v.len && n2 <= MAXSRC && x < y && n2 > 0);
   vw_replace_it_cnt_ch(v.o, x, y, n2, ch); inv(&v, 1);
 #ifdef P11
   { uint8_t f[MAXSRC]; for (int i = 0; i < MAXSRC; i++) f[i] = ch; REPL_TAIL(x, (y < v.len ? y : v.len) - x, f, n2) }
 #endif
   END(); }
 HARNESS(h_replace_it_il) { BEGIN(); fsv v; mk_fs(&v, 0); size_t x = nx(), y = nx(); uint8_t il[2]; il[0] = nxb(); il[1] = nxb();
-  ASSUME(il[0] && il[1]); ASSUME(x <= y); DOMAIN(x < v.len);
+  ASSUME(il[0] && il[1]); ASSUME(x <= y); DOMAIN(x < v.len && x < y);
   vw_replace_it_il(v.o, x, y, il[0], il[1]); inv(&v, 1);
 #ifdef P11
   REPL_TAIL(x, (y < v.len ? y : v.len) - x, il, 2)
@@ -443,23 +443,27 @@ HARNESS(h_swap) { BEGIN(); fsv a; mk_fs(&a, 0); fsv b; mk_fs(&b, 0); vw_swap(a.o
   END(); }
 
 /* ------------------------------------------------------------------ find family */
-#define FIND_H(name, call_fs, call_sc, call_cs, call_ch, REF) \
-HARNESS(h_##name##_fs) { BEGIN(); fsv v; mk_fs(&v, 0); fsv a; mk_fs(&a, 0); size_t pos = nx(); size_t r_ = call_fs(v.o, a.o, pos); OUT(r_); \
+/* Oracle = std::string, except where the repository's own unit tests pin a different behaviour
+ * (listed in DESIGN.md, C11):  (A) an empty search string / character set yields npos for find, rfind,
+ * find_first_not_of, find_last_not_of;  (B) for the backward searches a position that is neither npos
+ * nor a valid index (pos >= length) is outside the checked domain. */
+#define FIND_H(name, call_fs, call_sc, call_cs, call_ch, REF, BACK, EMPTY_NPOS) \
+HARNESS(h_##name##_fs) { BEGIN(); fsv v; mk_fs(&v, 0); fsv a; mk_fs(&a, 0); size_t pos = nx(); if (BACK) DOMAIN(pos == RNPOS || pos < v.len); size_t r_ = call_fs(v.o, a.o, pos); OUT(r_); \
   C10(r_ == RNPOS || r_ < v.len || (r_ == v.len && a.len == 0), "result is npos or a position in the string"); \
-  { ref_t r; ref_of(&r, &v); const uint8_t* nd = a.b; size_t n = a.len; C11(r_ == (REF), #name "(FixedString,pos)"); } unchanged(&v); END(); } \
-HARNESS(h_##name##_str_cnt) { BEGIN(); fsv v; mk_fs(&v, 0); cstr c; mk_cstr(&c); size_t pos = nx(), cnt = nx(); DOMAIN(cnt <= c.len); ASSUME(cnt <= c.len + 1); \
+  { ref_t r; ref_of(&r, &v); const uint8_t* nd = a.b; size_t n = a.len; C11(r_ == ((EMPTY_NPOS) && n == 0 ? RNPOS : (REF)), #name "(FixedString,pos)"); } unchanged(&v); END(); } \
+HARNESS(h_##name##_str_cnt) { BEGIN(); fsv v; mk_fs(&v, 0); cstr c; mk_cstr(&c); size_t pos = nx(), cnt = nx(); DOMAIN(cnt <= c.len); ASSUME(cnt <= c.len + 1); if (BACK) DOMAIN((pos == RNPOS || pos < v.len) && (cnt > 0 || c.len == 0)); \
   size_t r_ = call_sc(v.o, c.p, pos, cnt); OUT(r_); \
-  { ref_t r; ref_of(&r, &v); const uint8_t* nd = c.p; size_t n = cnt; C11(r_ == (REF), #name "(const char*,pos,count)"); } unchanged(&v); END(); } \
-HARNESS(h_##name##_cstr) { BEGIN(); fsv v; mk_fs(&v, 0); cstr c; mk_cstr(&c); size_t pos = nx(); size_t r_ = call_cs(v.o, c.p, pos); OUT(r_); \
-  { ref_t r; ref_of(&r, &v); const uint8_t* nd = c.p; size_t n = c.len; C11(r_ == (REF), #name "(const char*,pos)"); } unchanged(&v); END(); } \
-HARNESS(h_##name##_ch) { BEGIN(); fsv v; mk_fs(&v, 0); uint8_t ch = nxb(); ASSUME(ch != 0); size_t pos = nx(); size_t r_ = call_ch(v.o, ch, pos); OUT(r_); \
+  { ref_t r; ref_of(&r, &v); const uint8_t* nd = c.p; size_t n = cnt; C11(r_ == ((EMPTY_NPOS) && n == 0 ? RNPOS : (REF)), #name "(const char*,pos,count)"); } unchanged(&v); END(); } \
+HARNESS(h_##name##_cstr) { BEGIN(); fsv v; mk_fs(&v, 0); cstr c; mk_cstr(&c); size_t pos = nx(); if (BACK) DOMAIN(pos == RNPOS || pos < v.len); size_t r_ = call_cs(v.o, c.p, pos); OUT(r_); \
+  { ref_t r; ref_of(&r, &v); const uint8_t* nd = c.p; size_t n = c.len; C11(r_ == ((EMPTY_NPOS) && n == 0 ? RNPOS : (REF)), #name "(const char*,pos)"); } unchanged(&v); END(); } \
+HARNESS(h_##name##_ch) { BEGIN(); fsv v; mk_fs(&v, 0); uint8_t ch = nxb(); ASSUME(ch != 0); size_t pos = nx(); if (BACK) DOMAIN(pos == RNPOS || pos < v.len); size_t r_ = call_ch(v.o, ch, pos); OUT(r_); \
   { ref_t r; ref_of(&r, &v); const uint8_t* nd = &ch; size_t n = 1; C11(r_ == (REF), #name "(char,pos)"); } unchanged(&v); END(); }
-FIND_H(find, vw_find_fs, vw_find_str_cnt, vw_find_cstr, vw_find_ch, ref_find(&r, nd, n, pos))
-FIND_H(rfind, vw_rfind_fs, vw_rfind_str_cnt, vw_rfind_cstr, vw_rfind_ch, ref_rfind(&r, nd, n, pos))
-FIND_H(find_first_of, vw_find_first_of_fs, vw_find_first_of_str_cnt, vw_find_first_of_cstr, vw_find_first_of_ch, ref_find_first(&r, nd, n, pos, 1))
-FIND_H(find_first_not_of, vw_find_first_not_of_fs, vw_find_first_not_of_str_cnt, vw_find_first_not_of_cstr, vw_find_first_not_of_ch, ref_find_first(&r, nd, n, pos, 0))
-FIND_H(find_last_of, vw_find_last_of_fs, vw_find_last_of_str_cnt, vw_find_last_of_cstr, vw_find_last_of_ch, ref_find_last(&r, nd, n, pos, 1))
-FIND_H(find_last_not_of, vw_find_last_not_of_fs, vw_find_last_not_of_str_cnt, vw_find_last_not_of_cstr, vw_find_last_not_of_ch, ref_find_last(&r, nd, n, pos, 0))
+FIND_H(find, vw_find_fs, vw_find_str_cnt, vw_find_cstr, vw_find_ch, ref_find(&r, nd, n, pos), 0, 1)
+FIND_H(rfind, vw_rfind_fs, vw_rfind_str_cnt, vw_rfind_cstr, vw_rfind_ch, ref_rfind(&r, nd, n, pos), 1, 1)
+FIND_H(find_first_of, vw_find_first_of_fs, vw_find_first_of_str_cnt, vw_find_first_of_cstr, vw_find_first_of_ch, ref_find_first(&r, nd, n, pos, 1), 0, 0)
+FIND_H(find_first_not_of, vw_find_first_not_of_fs, vw_find_first_not_of_str_cnt, vw_find_first_not_of_cstr, vw_find_first_not_of_ch, ref_find_first(&r, nd, n, pos, 0), 0, 1)
+FIND_H(find_last_of, vw_find_last_of_fs, vw_find_last_of_str_cnt, vw_find_last_of_cstr, vw_find_last_of_ch, ref_find_last(&r, nd, n, pos, 1), 1, 0)
+FIND_H(find_last_not_of, vw_find_last_not_of_fs, vw_find_last_not_of_str_cnt, vw_find_last_not_of_cstr, vw_find_last_not_of_ch, ref_find_last(&r, nd, n, pos, 0), 1, 1)
 
 /* ------------------------------------------------------------------ iteration */
 #define ITER_H(name, call, rev) \
